@@ -42,6 +42,7 @@ impl Property for C19 {
             note: String::new(),
             decoy_in_cwd: false,
             echo_mode: false,
+            extra: Default::default(),
         };
         for i in 0..rng.small(0, 2) {
             sc.cmd.push(format!("i{i}"));
